@@ -134,6 +134,8 @@ type e1Run struct {
 	closeCalls         []*e1Call
 	bound              int // max over steps of (successful calls whose payload the transport has not taken yet)
 	wantBound          bool
+	arena              []byte // C09: the application's record buffer ("arena" carrier)
+	arenaOff           int
 	pollsWithSender    int // futile Close polls taken while a sender action existed
 	pollsNoSender      int // futile Close polls taken while none existed
 	noDrain            bool
@@ -526,6 +528,23 @@ func (r *e1Run) doWrite(ti, oi int, op E1Op, td *e1TaskData, backing []byte) {
 		r.cleanup = append(r.cleanup, cancel)
 		ctx = c
 	}
+	var arenaMsg []byte
+	if op.Op == "write" && op.Carrier == "arena" {
+		// the record is laid out in the shared buffer now; the Write call comes after the yield below, so another
+		// writer's record may already lie right behind this one
+		r.mu.Lock()
+		if r.arena == nil {
+			r.arena = make([]byte, 1<<17)
+		}
+		if r.arenaOff+len(buf) <= len(r.arena) {
+			arenaMsg = r.arena[r.arenaOff : r.arenaOff+len(buf)]
+			r.arenaOff += len(buf)
+			copy(arenaMsg, buf)
+		} else {
+			arenaMsg = append([]byte{}, buf...)
+		}
+		r.mu.Unlock()
+	}
 	td.ctx, td.call = ctx, call
 	r.s.Yield("call.begin", nil)
 	call.Begin = r.s.Seq()
@@ -563,6 +582,9 @@ func (r *e1Run) doWrite(ti, oi int, op E1Op, td *e1TaskData, backing []byte) {
 			call.N, call.Err = r.ch.ReadFrom(&shortReader{data: append([]byte{}, buf...), step: imax(1, op.N), empty: op.Empty})
 		case "write":
 			msg, _ := e1Message(op.Carrier, buf, call.ID)
+			if op.Carrier == "arena" {
+				msg = arenaMsg
+			}
 			call.Err = r.ch.Write(msg)
 			call.N = int64(len(buf))
 		}
